@@ -15,3 +15,13 @@ Print Assumptions C17_auto_detect_output_canonical.
 Theorem C17_names_history_never_out_of_fuel : forall (st : unames) (rs : list req), run_requests st rs <> OutOfFuel.
 Proof. exact (@run_requests_never_out_of_fuel). Qed.
 Print Assumptions C17_names_history_never_out_of_fuel.
+
+From NGO Require Import Gen.Purity Link.PurityCensus.
+
+Theorem C17_set_iteration_sites_audited : set_iteration_sites = map (fun x : string * string * string * audit * string => fst (fst x)) audited_set_iteration_sites.
+Proof. exact (@PurityCensus.set_iteration_sites_audited_proof). Qed.
+Print Assumptions C17_set_iteration_sites_audited.
+
+Theorem C17_process_state_sites_audited : process_state_sites = map fst audited_process_state_sites.
+Proof. exact (@PurityCensus.process_state_sites_audited_proof). Qed.
+Print Assumptions C17_process_state_sites_audited.
